@@ -251,6 +251,8 @@ class UnusedTranslator:
         used: set[int] = set()
 
         def convert(atom: AST) -> AST:
+            if atom.symbol.ast_type != ASTType.Function:
+                return atom
             bpred = Predicate(atom.symbol.name, len(atom.symbol.arguments))
             if bpred in mapping:
                 used.add(mapping[bpred].rule_id)
